@@ -115,5 +115,5 @@ impl Buf {
 pub fn take_buf(b: &mut Buf) -> (r: Buf) ensures r == *old(b), final(b).v@.len() == 0
 { let mut e = Buf { v: Vec::new(), cap: Ghost(0) }; core::mem::swap(b, &mut e); e }
 
-pub ghost struct EW { pub attempts: Seq<Seq<u8>> }     // the program paths handed to execve/execv so far, in order
+pub ghost struct EW { pub attempts: Seq<Seq<u8>>, pub last_err: Option<i32> }     // ...; the error code of the last failed exec     // the program paths handed to execve/execv so far, in order
 pub tracked struct World { pub ghost s: EW }
